@@ -99,3 +99,16 @@ Theorem batch_short_stride_refuted : forall stride stride', stride' < stride ->
   block_index stride' 1 0 = block_index stride' 0 stride' /\ stride' < stride.
 Proof. exact wrong_stride_aliases_lemma. Qed.
 Print Assumptions batch_short_stride_refuted.
+
+(* the flat array of a batch (abundances, derivatives, Jacobian values) is the concatenation of its systems: the element at
+   s * stride + i is slot i of system s, and the array has (number of systems) * stride elements *)
+Theorem batch_flat_layout : forall (A : Type) (d : A) (stride : nat) (b : list (list A)) (s i : nat),
+  Forall (fun sys => List.length sys = stride) b -> s < List.length b -> i < stride ->
+  nth (block_index stride s i) (concat b) d = nth i (nth s b []) d.
+Proof. exact flat_layout_lemma. Qed.
+Print Assumptions batch_flat_layout.
+
+Theorem batch_flat_length : forall (A : Type) (stride : nat) (b : list (list A)),
+  Forall (fun sys => List.length sys = stride) b -> List.length (concat b) = List.length b * stride.
+Proof. exact flat_length_lemma. Qed.
+Print Assumptions batch_flat_length.
